@@ -6,6 +6,7 @@ which that property's check observes it. Patterns are as wide as the mechanism a
 import json, sys
 
 FIXED = [
+ ("C19","7dd3c12","rules/numeric-{gte,gt,lte,lt,gte+lte,gt+lt,gte=lte}/float/bound=inexact","schema-rejects-what-rules-accept","float32 rule bounds were widened with float64(): a bound such as 3.14159 was published as 3.141590118408203, so the JSON form of a value equal to the bound compared unequal to the published minimum/maximum"),
  ("C20","92ff240","mock/examples/same-short-name/*","value-outside-declared-examples","the mock's example table was keyed by the nested message path while the emitted lookups used the bare message name: examples on nested messages were never used and a nested message took the examples of a same-named top-level one"),
  ("C03","d36cb3a","route/base=noslash/*","handler-not-reached","base_path/path without a leading slash made the Go server register a host pattern (or panic at registration) while clients and OpenAPI used a slash-prefixed path"),
  ("C01","d36cb3a","deliver/route/base=noslash/*","handler-not-reached","same defect seen through Go client -> Go server delivery"),
@@ -187,7 +188,7 @@ mech("openapi-short-schema-names",
 
 mech("openapi-ref-with-slash",
  "flattened discriminated oneof: variant schema names are built from oneof_value; a value containing '/' yields an unresolvable $ref",
- [("C18","oas/{feat,feat-2svc,feat-shared,feat-twins}/oneof_flatten/*",["unresolved-ref"],None)])
+ [("C18","oas/{feat,feat-2svc,feat-shared,feat-twins}/oneof_flatten/*",["unresolved-ref"],None),("C06","oasjson/oneof_flatten/message/oneof_value*",["schema-has-unresolvable-reference"],None)])
 
 mech("mock-typed-assignments",
  "mock generator assigns its int64/float64/bool/string example selectors to fields of other Go types (int32, float32, optional pointers, repeated slices) and addresses oneof members as plain fields: the mock file does not compile",
